@@ -1,0 +1,111 @@
+//go:build verif
+// +build verif
+
+package leaves
+
+import (
+	"time"
+
+	items "gopkg.in/src-d/hercules.v10/internal/plumbing"
+	"gopkg.in/src-d/hercules.v10/internal/plumbing/identity"
+)
+
+// Hooks for the verification of property C18 (combining results).  Add-only, compiled only with
+// the build tag `verif`: constructors and read-only getters for the unexported fields of the
+// three result types that have a MergeResults, and a re-export of the identity table merge that
+// MergeResults calls, so that the harness can record the table the merge worked with.
+
+// VerifC18Lang is one entry of DevTick.Languages (the value type lives in an internal package).
+type VerifC18Lang struct {
+	Name                    string
+	Added, Removed, Changed int
+}
+
+// VerifC18NewDevTick builds a DevTick.
+func VerifC18NewDevTick(commits, added, removed, changed int, langs []VerifC18Lang) *DevTick {
+	dt := &DevTick{Commits: commits, LineStats: items.LineStats{Added: added, Removed: removed, Changed: changed},
+		Languages: map[string]items.LineStats{}}
+	for _, l := range langs {
+		dt.Languages[l.Name] = items.LineStats{Added: l.Added, Removed: l.Removed, Changed: l.Changed}
+	}
+	return dt
+}
+
+// VerifC18NewDevsResult builds a DevsResult including its unexported fields.
+func VerifC18NewDevsResult(ticks map[int]map[int]*DevTick, people []string, tickSize time.Duration) DevsResult {
+	return DevsResult{Ticks: ticks, reversedPeopleDict: people, tickSize: tickSize}
+}
+
+// VerifC18DevsResultFields returns the unexported fields of a DevsResult.
+func VerifC18DevsResultFields(r DevsResult) (people []string, tickSize time.Duration) {
+	return r.reversedPeopleDict, r.tickSize
+}
+
+// VerifC18NewCouplesResult builds a CouplesResult including its unexported field.
+func VerifC18NewCouplesResult(peopleMatrix []map[int]int64, peopleFiles [][]int, filesMatrix []map[int]int64,
+	filesLines []int, files []string, people []string) CouplesResult {
+	return CouplesResult{
+		PeopleMatrix:       peopleMatrix,
+		PeopleFiles:        peopleFiles,
+		FilesMatrix:        filesMatrix,
+		FilesLines:         filesLines,
+		Files:              files,
+		reversedPeopleDict: people,
+	}
+}
+
+// VerifC18CouplesResultPeople returns the unexported field of a CouplesResult.
+func VerifC18CouplesResultPeople(r CouplesResult) []string {
+	return r.reversedPeopleDict
+}
+
+// VerifC18NewBurndownResult builds a BurndownResult including its unexported fields.
+func VerifC18NewBurndownResult(global DenseHistory, fileHistories map[string]DenseHistory,
+	fileOwnership map[string]map[int]int, peopleHistories []DenseHistory, peopleMatrix DenseHistory,
+	people []string, tickSize time.Duration, sampling, granularity int) BurndownResult {
+	return BurndownResult{
+		GlobalHistory:      global,
+		FileHistories:      fileHistories,
+		FileOwnership:      fileOwnership,
+		PeopleHistories:    peopleHistories,
+		PeopleMatrix:       peopleMatrix,
+		reversedPeopleDict: people,
+		tickSize:           tickSize,
+		sampling:           sampling,
+		granularity:        granularity,
+	}
+}
+
+// VerifC18BurndownResultFields returns the unexported fields of a BurndownResult.
+func VerifC18BurndownResultFields(r BurndownResult) (people []string, tickSize time.Duration, sampling, granularity int) {
+	return r.reversedPeopleDict, r.tickSize, r.sampling, r.granularity
+}
+
+// VerifC18MergedIndex mirrors identity.MergedIndex together with its key.
+type VerifC18MergedIndex struct {
+	Key    string
+	Final  int
+	First  int
+	Second int
+}
+
+// VerifC18MergeIdentities calls identity.MergeReversedDictsIdentities, exactly as the three
+// MergeResults do, and returns the table as a slice (in map iteration order: callers sort).
+func VerifC18MergeIdentities(rd1, rd2 []string) ([]VerifC18MergedIndex, []string) {
+	table, merged := identity.MergeReversedDictsIdentities(rd1, rd2)
+	res := make([]VerifC18MergedIndex, 0, len(table))
+	for k, v := range table {
+		res = append(res, VerifC18MergedIndex{Key: k, Final: v.Final, First: v.First, Second: v.Second})
+	}
+	return res, merged
+}
+
+// VerifC18MergeLiteral calls identity.MergeReversedDictsLiteral (used for the file names).
+func VerifC18MergeLiteral(rd1, rd2 []string) ([]VerifC18MergedIndex, []string) {
+	table, merged := identity.MergeReversedDictsLiteral(rd1, rd2)
+	res := make([]VerifC18MergedIndex, 0, len(table))
+	for k, v := range table {
+		res = append(res, VerifC18MergedIndex{Key: k, Final: v.Final, First: v.First, Second: v.Second})
+	}
+	return res, merged
+}
